@@ -514,9 +514,9 @@ func (g *gen) pairFamily() {
 				{mk("A", val.Float32, []int64{n4}, raw), mk("B", val.Float32, []int64{1, n4}, raw), mk("C", val.Float32, []int64{n4, 1}, raw)},
 				{mk("A", val.Float32, []int64{n4}, raw), mk("B", val.Int32, []int64{n4}, raw), mk("C", val.Uint32, []int64{n4}, raw)},
 				{mk("A", val.Float64, []int64{n8}, raw), mk("B", val.Int64, []int64{2, n8 / 2}, raw), mk("C", val.Float32, []int64{n4}, raw)},
-				{mk("A", val.Float32, []int64{n4}, raw), mk("B", val.Float32, []int64{3}, raw)},          // B malformed
-				{mk("A", val.Float32, []int64{n4}, raw), mk("B", val.Float32, []int64{n4 + 1}, raw)},     // B malformed
-				{mk("A", val.Float32, []int64{n4}, raw), mk("A", val.Float32, []int64{2, n4 / 2}, raw)},  // same name twice
+				{mk("A", val.Float32, []int64{n4}, raw), mk("B", val.Float32, []int64{3}, raw)},         // B malformed
+				{mk("A", val.Float32, []int64{n4}, raw), mk("B", val.Float32, []int64{n4 + 1}, raw)},    // B malformed
+				{mk("A", val.Float32, []int64{n4}, raw), mk("A", val.Float32, []int64{2, n4 / 2}, raw)}, // same name twice
 				{mk("A", val.Uint8, []int64{int64(nbytes)}, raw), mk("B", val.Int8, []int64{int64(nbytes)}, raw), mk("C", val.Bool, []int64{4}, []byte{0, 1, 1, 0})},
 			}
 			for vi, tps := range variants {
@@ -732,7 +732,11 @@ func (g *gen) metadataFamily() {
 	}
 	for _, ds := range []string{"converted to float32", "big-endian", "fp16", strings.Repeat("x", 5000)} {
 		ds := ds
-		vs = append(vs, variant{"doc_strings", func(mp *onnx.ModelProto) { mp.DocString = ds; mp.Graph.DocString = ds; mp.Graph.Initializer[0].DocString = ds }})
+		vs = append(vs, variant{"doc_strings", func(mp *onnx.ModelProto) {
+			mp.DocString = ds
+			mp.Graph.DocString = ds
+			mp.Graph.Initializer[0].DocString = ds
+		}})
 	}
 	for _, gn := range []string{"", "main_graph", "torch-jit-export", "skl2onnx", "float16_graph", "quantized"} {
 		gn := gn
